@@ -364,15 +364,12 @@ func engineAssertions(c *an.Ctx, fns []*ssa.Function) {
 					continue
 				}
 				if mayNil {
-					g := &an.Guard{Name: "x != nil", FailValue: an.AFalse, MatchValue: func(v ssa.Value) bool {
-						bo, ok := v.(*ssa.BinOp)
-						if !ok || bo.Op != token.NEQ || bo.X != ta.X {
-							return false
-						}
-						k, isK := bo.Y.(*ssa.Const)
+					// x != nil in either spelling (if x == nil { return }): the guard fails when "x == nil" holds
+					gs := relGuards("x != nil", token.EQL, func(x ssa.Value) bool { return x == ta.X }, func(y ssa.Value) bool {
+						k, isK := y.(*ssa.Const)
 						return isK && k.Value == nil
-					}}
-					v := an.Guarded(c.P, fn, []*an.Guard{g}, func(x ssa.Instruction) bool { return x == ssa.Instruction(ta) }, false)
+					})
+					v := an.Guarded(c.P, fn, gs, func(x ssa.Instruction) bool { return x == ssa.Instruction(ta) }, false)
 					c.Check(v.Holds && v.GuardSites >= 1, key, rule, c.P.Rel(ta.Pos()), "the engine can return (nil, nil) — e.g. NeoVmService.Invoke when the evaluation stack is empty — and no nil test guards the assertion: a nil interface makes x.(T) panic")
 					continue
 				}
